@@ -143,6 +143,20 @@ func snapshotRoundTrip(snap []byte) string {
 	if obj.Marshal() != obj2.Marshal() {
 		return fmt.Sprintf("snapshot round trip changed content\n  %s\n  %s", obj.Marshal(), obj2.Marshal())
 	}
+	// Structure: the CRDT metadata a later concurrent change may anchor on
+	// (node ids, insPrev links, tombstones, position slots, attribute tickets)
+	// must survive decoding. Encoding a decoded snapshot again must give the
+	// same message up to the order of object members (those come out of a Go map).
+	c1, rm1 := canonSnapshot(snap)
+	c2, rm2 := canonSnapshot(b2)
+	if c1 != nil && c2 != nil && !bytes.Equal(c1, c2) {
+		return "snapshot round trip changed CRDT metadata: " + firstSnapshotDiff(snap, b2)
+	}
+	for k, r1 := range rm1 {
+		if r2 := rm2[k]; r2 != nil && ticketLess(r2, r1) {
+			return fmt.Sprintf("snapshot round trip moved the removal ticket of an object member backwards: %s -> %s", r1.String(), r2.String())
+		}
+	}
 	if g1, g2 := crdt.NewRoot(obj).GarbageLen(), crdt.NewRoot(obj2).GarbageLen(); g1 != g2 {
 		return fmt.Sprintf("snapshot round trip changed GarbageLen %d -> %d", g1, g2)
 	}
@@ -167,6 +181,134 @@ func snapshotRoundTrip(snap []byte) string {
 }
 
 type presenceData = map[string]string
+
+// canonSnapshot re-serialises a snapshot deterministically with the members of
+// every JSONObject sorted by (key, created_at). The removal tickets of object
+// members are taken out into rm (keyed by the member's created_at) and compared
+// separately: decoding re-inserts the members in the order of the message
+// (which comes out of a Go map) and re-derives the shadowing, so the tombstone
+// ticket of a shadowed member may legitimately become the ticket of a later
+// concurrent Set of the same key - replicas that applied those Sets in
+// different orders hold different tickets for it anyway. It must never become
+// EARLIER (the tombstone would be purged before every peer has seen it).
+func canonSnapshot(snap []byte) ([]byte, map[string]*api.TimeTicket) {
+	var pb api.Snapshot
+	if err := proto.Unmarshal(snap, &pb); err != nil {
+		return nil, nil
+	}
+	rm := map[string]*api.TimeTicket{}
+	canonElement(pb.Root, rm)
+	return detMarshal(&pb), rm
+}
+
+func elemTickets(e *api.JSONElement) (created *api.TimeTicket, removed, moved **api.TimeTicket) {
+	switch b := e.GetBody().(type) {
+	case *api.JSONElement_JsonObject:
+		return b.JsonObject.CreatedAt, &b.JsonObject.RemovedAt, &b.JsonObject.MovedAt
+	case *api.JSONElement_JsonArray:
+		return b.JsonArray.CreatedAt, &b.JsonArray.RemovedAt, &b.JsonArray.MovedAt
+	case *api.JSONElement_Primitive_:
+		return b.Primitive.CreatedAt, &b.Primitive.RemovedAt, &b.Primitive.MovedAt
+	case *api.JSONElement_Text_:
+		return b.Text.CreatedAt, &b.Text.RemovedAt, &b.Text.MovedAt
+	case *api.JSONElement_Counter_:
+		return b.Counter.CreatedAt, &b.Counter.RemovedAt, &b.Counter.MovedAt
+	case *api.JSONElement_Tree_:
+		return b.Tree.CreatedAt, &b.Tree.RemovedAt, &b.Tree.MovedAt
+	}
+	return nil, nil, nil
+}
+
+func canonElement(e *api.JSONElement, rm map[string]*api.TimeTicket) {
+	if e == nil {
+		return
+	}
+	switch b := e.Body.(type) {
+	case *api.JSONElement_JsonObject:
+		for _, n := range b.JsonObject.Nodes {
+			canonElement(n.Element, rm)
+			c, r, mv := elemTickets(n.Element)
+			if r != nil && *r != nil {
+				rm[string(detMarshal(c))] = *r
+				*r = &api.TimeTicket{} // "removed", ticket compared separately
+			}
+			// decoding an object stamps every member with movedAt = its positionedAt,
+			// which is createdAt for a member that never moved: same meaning as none
+			if mv != nil && *mv != nil && proto.Equal(*mv, c) {
+				*mv = nil
+			}
+		}
+		sort.SliceStable(b.JsonObject.Nodes, func(i, j int) bool {
+			ni, nj := b.JsonObject.Nodes[i], b.JsonObject.Nodes[j]
+			if ni.Key != nj.Key {
+				return ni.Key < nj.Key
+			}
+			ci, _, _ := elemTickets(ni.Element)
+			cj, _, _ := elemTickets(nj.Element)
+			return bytes.Compare(detMarshal(ci), detMarshal(cj)) < 0
+		})
+	case *api.JSONElement_JsonArray:
+		for _, n := range b.JsonArray.Nodes {
+			for m := n; m != nil; m = m.Next {
+				canonElement(m.Element, rm)
+			}
+		}
+	}
+}
+
+func ticketLess(a, b *api.TimeTicket) bool {
+	if a.GetLamport() != b.GetLamport() {
+		return a.GetLamport() < b.GetLamport()
+	}
+	if c := bytes.Compare(a.GetActorId(), b.GetActorId()); c != 0 {
+		return c < 0
+	}
+	return a.GetDelimiter() < b.GetDelimiter()
+}
+
+// firstSnapshotDiff names the first element whose canonical encodings differ.
+func firstSnapshotDiff(s1, s2 []byte) string {
+	var p1, p2 api.Snapshot
+	_ = proto.Unmarshal(s1, &p1)
+	_ = proto.Unmarshal(s2, &p2)
+	canonElement(p1.Root, map[string]*api.TimeTicket{})
+	canonElement(p2.Root, map[string]*api.TimeTicket{})
+	var walk func(path string, a, b *api.JSONElement) string
+	walk = func(path string, a, b *api.JSONElement) string {
+		if bytes.Equal(detMarshal(a), detMarshal(b)) {
+			return ""
+		}
+		if oa, ok := a.GetBody().(*api.JSONElement_JsonObject); ok {
+			if ob, ok := b.GetBody().(*api.JSONElement_JsonObject); ok && len(oa.JsonObject.Nodes) == len(ob.JsonObject.Nodes) {
+				for i := range oa.JsonObject.Nodes {
+					if d := walk(path+"."+oa.JsonObject.Nodes[i].Key, oa.JsonObject.Nodes[i].Element, ob.JsonObject.Nodes[i].Element); d != "" {
+						return d
+					}
+				}
+			}
+		}
+		if ta, ok := a.GetBody().(*api.JSONElement_Text_); ok {
+			if tb, ok := b.GetBody().(*api.JSONElement_Text_); ok && len(ta.Text.Nodes) == len(tb.Text.Nodes) {
+				for i := range ta.Text.Nodes {
+					if !bytes.Equal(detMarshal(ta.Text.Nodes[i]), detMarshal(tb.Text.Nodes[i])) {
+						return fmt.Sprintf("%s text node %d\n  before: %s\n  after:  %s", path, i, truncateStr(ta.Text.Nodes[i].String(), 300), truncateStr(tb.Text.Nodes[i].String(), 300))
+					}
+				}
+			}
+		}
+		if ta, ok := a.GetBody().(*api.JSONElement_Tree_); ok {
+			if tb, ok := b.GetBody().(*api.JSONElement_Tree_); ok && len(ta.Tree.Nodes) == len(tb.Tree.Nodes) {
+				for i := range ta.Tree.Nodes {
+					if !bytes.Equal(detMarshal(ta.Tree.Nodes[i]), detMarshal(tb.Tree.Nodes[i])) {
+						return fmt.Sprintf("%s tree node %d\n  before: %s\n  after:  %s", path, i, truncateStr(ta.Tree.Nodes[i].String(), 300), truncateStr(tb.Tree.Nodes[i].String(), 300))
+					}
+				}
+			}
+		}
+		return fmt.Sprintf("%s\n  before: %s\n  after:  %s", path, truncateStr(a.String(), 400), truncateStr(b.String(), 400))
+	}
+	return walk("root", p1.Root, p2.Root)
+}
 
 // c09Exec checks everything one execution produced.
 func c09Exec(x *hist.Exec, rpcs []*hist.RPC, res *Result) {
@@ -700,7 +842,7 @@ func init() {
 			"FromChangePack(+NewFromChange, BytesToSnapshot), BytesToSnapshot/Object/Array/Tree(+Marshal, GarbageLen, re-encode), DecompressSnapshot, VersionVectorFromBytes, ChangeInfo.ToChange(+apply to a document): no panic; " +
 			"non-trivial = all decoder inputs; distinct outcomes = operation types and mutation kinds seen",
 		Assume:      []string{"decoders are called directly (the same functions the RPC handlers and the database layer call)", "single deviations only (pairs of mutations are not enumerated)"},
-		QuickBudget: 150 * time.Second,
+		QuickBudget: 300 * time.Second,
 		Run:         c09Run,
 		Reproduce: func(f *Found) (bool, error) {
 			if f.Hist != nil {
